@@ -82,6 +82,9 @@ func runC05(c *CaseCtx) *CaseResult {
 		cc.Prof.MaxDepth = 0
 		cc.Prof.PSome = 4
 	}
+	if (c.Case-c05SweepCases)%50 >= 48 {
+		return c05Deep(c, kind, r)
+	}
 	ops := 900
 	if c.Tier == "thorough" {
 		ops = 1500 + r.Intn(3000)
@@ -106,6 +109,65 @@ func runC05(c *CaseCtx) *CaseResult {
 	s := w.stats
 	res.NonTrivial = s.NearMax > 0 && s.NearMin > 0 && s.Splits > 0 && s.Merges > 0 && s.MaxRootSlabs >= 3
 	return res
+}
+
+// c05Deep: DEEP trees. At slab size 256 an index slab holds 5..16 children, so a few thousand small elements give index
+// slabs whose children are index slabs whose children are index slabs: splits, merges and borrowing between INDEX slabs
+// (not only leaves), root promotions / demotions over several levels, routing through >= 3 index levels.
+// The structural walk runs every 16 operations and always after an operation that created or removed a slab.
+func c05Deep(c *CaseCtx, kind string, r *rand.Rand) *CaseResult {
+	res, _ := runDeepCase(c, kind, r)
+	return res
+}
+
+// deepSlabSizes: small slab sizes whose index slabs overflow at an even and at an odd number of children (the parity of the
+// child count at every index-slab split is a function of the slab size alone).
+var deepSlabSizes = []uint32{256, 260, 300, 272, 282, 256, 288, 264}
+
+func runDeepCase(c *CaseCtx, kind string, r *rand.Rand) (*CaseResult, *World) {
+	cc := &ContCase{Kind: kind}
+	cc.Slab = deepSlabSizes[r.Intn(len(deepSlabSizes))]
+	if kind == "map" && cc.Slab > 272 {
+		cc.Slab -= 24 // a map index slab at 256..272 holds <= 14 children: depth 4 from ~2 500 entries
+	}
+	cc.Prof = DefaultValProfile()
+	cc.Prof.Sizes = "small"
+	if kind == "array" {
+		// an array index slab holds up to 27 children at these sizes (a map index slab 13): with small elements depth 4
+		// would need > 20 000 elements, with half-limit elements a leaf holds 2-3 and a few thousand suffice
+		cc.Prof.Sizes = "medium"
+	}
+	cc.Prof.PContainer = 0
+	cc.Prof.MaxDepth = 0
+	cc.Prof.PSome = 3
+	cc.Prof.BigKeys = false
+	cc.Prof.KeySpace = 40000
+	ops := 10000
+	if c.Tier == "thorough" {
+		ops = 20000 + r.Intn(30000)
+	}
+	cc.Ops = ops
+	cc.Hist = HistCfg{DescendPct: 0, InvalidPct: 1}
+	cc.Mon = MonCfg{TreeEvery: 16, DeepEvery: ops / 3, RefEvery: ops / 3, ReachEvery: 500, ColdAtCommit: true, DirtyEvery: 40}
+	cc.CommitEvery = ops / 4
+	cc.EvictEvery = 2
+	cc.PerOp = func(w *World, root *Node) error {
+		if w.st.OpGenerates+w.st.OpRemoves > 0 && w.opCount%16 != 0 {
+			return w.CheckTree(true)
+		}
+		return nil
+	}
+	cc.Phases = scalePhases(ops,
+		[]Phase{{Name: "grow", Insert: 88, Set: 4, Remove: 3, Read: 5, Meta: 0}, PhaseChurn, {Name: "shrink", Insert: 4, Set: 4, Remove: 86, Read: 6, Meta: 0}, PhaseGrow, PhaseShrink},
+		[]int{42, 10, 30, 10, 8})
+	res, w, _ := runContainerCase(c, cc)
+	s := w.stats
+	res.Config["deep_tree_case"] = true
+	res.NonTrivial = s.MaxDepth >= 4 && s.Splits > 0 && s.Merges > 0
+	if s.MaxDepth >= 4 {
+		s.Extra["deep-tree-cases-depth>=4"]++
+	}
+	return res, w
 }
 
 // ---------------------------------------------------------------------------------------------
@@ -293,8 +355,27 @@ func runC03(c *CaseCtx) *CaseResult {
 	if c.Tier == "thorough" {
 		ops = 500 + r.Intn(1000)
 	}
+	descend := 35
+	switch c.Case % 8 {
+	case 3, 6:
+		// many small elements at the smallest slab size: trees of >= 3 levels, so that operations after a commit touch
+		// leaves whose ancestors (index slabs, the root with the element count) are clean
+		cc.Prof.Sizes = "small"
+		cc.Prof.PContainer = 3
+		cc.Prof.MaxDepth = 1
+		cc.Prof.BigKeys = false
+		cc.Prof.KeySpace = 3000
+		cc.Slab = 256
+		ops *= 4
+		descend = 5
+	case 5:
+		// colliding digests: external collision groups (their slab changes while the data slab holding the reference does not)
+		cc.Dig = &DigProfile{Alpha: [4]uint64{uint64(3 + r.Intn(6)), uint64(2 + r.Intn(3)), 2, 0}, Salt: uint64(r.Int63())}
+		cc.Prof.KeySpace = 150
+		cc.Prof.PContainer = 6
+	}
 	cc.Ops = ops
-	cc.Hist = HistCfg{DescendPct: 35, PopOnChild: true, InvalidPct: 3}
+	cc.Hist = HistCfg{DescendPct: descend, PopOnChild: true, InvalidPct: 3}
 	cc.Mon = MonCfg{TreeEvery: 7, DeepEvery: 0, ColdAtCommit: true, ReachEvery: 0, DirtyEvery: 1}
 	cc.CommitEvery = []int{1, 2, 5, 17, 60, 100000}[c.Case/2%6]
 	cc.Relaxed = c.Case%3 == 2
@@ -691,9 +772,10 @@ func init() {
 		Rule: "cases 0..15 = exhaustive sweep of every legal slab size 256..32768 (residue classes mod 16) checking the arithmetic behind 'a full slab holds >= 2 elements'; " +
 			"remaining cases = seeded histories with the hostile size profile (strings at the inline limit -2..+2, at 1/2 and 1/4 of the limit, one-byte and larger-than-slab elements, in-place growth/shrink via Set) on arrays and maps, " +
 			"independent structural walk after every operation (size band of every size-limited slab, element limits, header/child agreement, prefix sums, first digests, sorted-unique digests, sibling links, root index >= 2 children). " +
-			"non-trivial = >=3 slabs, slabs observed within 8 bytes of both band edges, slab-creating and slab-removing operations; distinct by hash(config, operation list)",
+			"one pair in every 50 history cases is a DEEP-TREE case (slab size 256..300, thousands of small elements, tree depth >= 4: splits / merges / borrowing between index slabs over several levels, walk every 16 operations and after every slab-creating or -removing operation). " +
+			"non-trivial = >=3 slabs, slabs observed within 8 bytes of both band edges, slab-creating and slab-removing operations (deep cases: depth >= 4); distinct by hash(config, operation list)",
 		Assumptions: []string{"the size constants restated in harness/walker.go are cross-checked against real encodings by the C06 check", "exploration, not proof"},
-		Mandatory:   []string{"slabs_near_upper_bound", "slabs_near_lower_bound", "ops_that_removed_slabs", "slab_sizes_swept"},
+		Mandatory:   []string{"slabs_near_upper_bound", "slabs_near_lower_bound", "ops_that_removed_slabs", "slab_sizes_swept", "deep-tree-cases-depth>=4"},
 	})
 	register(&Prop{
 		ID: "C06", Level: "exploration", Run: runC06, Cases: cases(16*48, 16*200), MinNonTrivial: 8,
